@@ -40,6 +40,138 @@ def dmudx_rows(ctx, els=("AL", "CR", "NI"), ref="CR", dof=3, ncons=1):
     ctx.prove("partialdMudX returns the element rows of the solve", np.shape(pd) == (n, n - 1) and ctx.all([ctx.eq(pd[k, j], ddx[i0 + k, j]) for k in range(n) for j in range(n - 1)]))
 
 
+# ----------------------------------------------------------------------------------------------------------------------
+# the solve itself: inverse of the bordered Hessian with the documented fallback
+
+def _structurally_diagonal(a):
+    n = a.shape[0]
+    return all(isinstance(a[i, j], (int, float)) and a[i, j] == 0 for i in range(n) for j in range(n) if i != j)
+
+
+def _det3(a):
+    n = a.shape[0]
+    if n == 1:
+        return a[0, 0]
+    if n == 2:
+        return a[0, 0] * a[1, 1] - a[0, 1] * a[1, 0]
+    return (a[0, 0] * (a[1, 1] * a[2, 2] - a[1, 2] * a[2, 1]) - a[0, 1] * (a[1, 0] * a[2, 2] - a[1, 2] * a[2, 0])
+            + a[0, 2] * (a[1, 0] * a[2, 1] - a[1, 1] * a[2, 0]))
+
+
+def _exact_inverse(a, pseudo):
+    """exact-arithmetic np.linalg.inv (raises LinAlgError iff singular) / np.linalg.pinv (Moore-Penrose) for the two
+    matrix families of this harness: structurally diagonal of any size, or non-singular up to 3 x 3"""
+    from vk import symnp
+    from vk.core import FacadeMissing
+    import numpy as _rnp
+    p = _rnp.asarray(a, dtype=object)
+    n = p.shape[0]
+    if _structurally_diagonal(p):
+        out = _rnp.empty((n, n), dtype=object); out.fill(0.0)
+        for i in range(n):
+            if bool(p[i, i] == 0):
+                if not pseudo:
+                    raise _rnp.linalg.LinAlgError("Singular matrix")
+            else:
+                out[i, i] = 1.0 / p[i, i]
+        return out.view(symnp.SymArray)
+    if n <= 3:
+        if bool(_det3(p) == 0):
+            if not pseudo:
+                raise _rnp.linalg.LinAlgError("Singular matrix")
+            raise FacadeMissing("pseudo-inverse of a singular non-diagonal symbolic matrix")
+        return symnp.inv_cofactor(p.view(symnp.SymArray))
+    raise FacadeMissing("inverse of a symbolic %d x %d non-diagonal matrix" % (n, n))
+
+
+class _LinalgWithPinv:
+    def __init__(self, base):
+        self._base = base
+
+    def __getattr__(self, name):
+        if name == "pinv":
+            return lambda a, *r, **k: _exact_inverse(a, True)
+        return getattr(self._base, name)
+
+
+class _NpWithPinv:
+    """the facade as seen by kawin.thermo.FreeEnergyHessian, plus an exact Moore-Penrose model for linalg.pinv (the
+    facade has none; the unmodified code never calls it)"""
+
+    def __init__(self, base):
+        self.__dict__["_base"] = base
+        self.__dict__["linalg"] = _LinalgWithPinv(base.linalg)
+
+    def __getattr__(self, name):
+        return getattr(self._base, name)
+
+
+def solve_fallback(ctx, fn="partial", kind="general", ref="NI", zero_at=0):
+    """partialddx / totalddx = inverse(bordered Hessian) times the composition right-hand side when the Hessian is
+    non-singular, and -- the fallback documented in the source ("if curvature is undefined, then assume inverse is 0")
+    -- all zeros when the Hessian is singular (never a pseudo-inverse solution)"""
+    els = ["AL", "NI"] if not (kind == "general" and fn == "partial") else ["AL"]
+    n = len(els)
+    dof, ncons = (0, 0) if kind == "general" else (2, 1)
+    size = dof + ncons + n + 1
+    i0 = dof + ncons + 1
+    if kind == "general":
+        # partial: arbitrary 2 x 2 (one component);  total: 3 x 3 lower-triangular (two components)
+        H = ctx.reals("H", (size, size), (-2.0, 2.0))
+        if size == 3:
+            H = H.copy()
+            for i in range(size):
+                for j in range(i + 1, size):
+                    H[i, j] = 0.0
+        ctx.assume(_det3(H) != 0, "non-singular Hessian")
+    else:
+        H = np.zeros((size, size))
+        if kind == "diag":
+            d = ctx.reals("h", size, (0.5, 2.0))
+            for i in range(size):
+                if i != zero_at:
+                    ctx.assume(d[i] != 0)
+                    H[i, i] = d[i]
+    cs = _CS(els, dof, ncons)
+    cs.phase_record.num_statevars = 3
+    old_h, old_np = FEH.hessian, FEH.__dict__["np"]
+    FEH.hessian = lambda mu, c: H
+    if ctx.mode != "concrete":
+        FEH.__dict__["np"] = _NpWithPinv(old_np)
+    try:
+        mu = np.zeros(n)
+        r = FEH.partialddx(mu, cs) if fn == "partial" else FEH.totalddx(mu, cs, ref)
+    finally:
+        FEH.hessian = old_h; FEH.__dict__["np"] = old_np
+    ctx.observe("ddx", r)
+    # right-hand side written from the docstrings: d/dx_A partial = unit change of component A; total = A minus reference
+    cols = n if fn == "partial" else n - 1
+    b = [[0.0] * cols for _ in range(size)]
+    if fn == "partial":
+        for A in range(n):
+            b[i0 + A][A] = -1.0
+    else:
+        c = 0
+        for A in range(n):
+            if els[A] != ref:
+                b[i0 + A][c] = -1.0; c += 1
+            else:
+                b[i0 + A] = [1.0] * cols
+    ctx.prove("shape of the derivative array", np.shape(r) == (size, cols))
+    if kind == "general":
+        for i in range(size):
+            for j in range(cols):
+                ctx.prove("non-singular Hessian: result solves the bordered system H r = b", ctx.eq(sum(H[i, k] * r[k, j] for k in range(size)), b[i][j], atol=1e-9))
+    else:
+        ctx.prove("singular Hessian: result is the documented fallback, all zeros",
+                  ctx.all([ctx.eq(r[i, j], 0.0, atol=0.0) for i in range(size) for j in range(cols)]))
+
+
+def _solve_hook(a):
+    from vk import core, symnp
+    return _exact_inverse(a, False)
+
+
 EXTRA = [
     Harness("C10.dmudx_rows", dmudx_rows, functions=[FEH.dMudX, FEH.partialdMudX],
             assumptions=["the bordered-Hessian solve (totalddx/partialddx) is an arbitrary symbolic matrix: only the row bookkeeping around it is decided"],
@@ -47,4 +179,19 @@ EXTRA = [
             bounds={"components": "2-4", "reference position": "first / middle / last"},
             params={"quick": [{"els": ["AL", "CR", "NI"], "ref": r} for r in ("AL", "CR", "NI")] + [{"els": ["AL", "NI"], "ref": "NI", "dof": 2}, {"els": ["AL", "CR", "FE", "NI"], "ref": "FE", "dof": 4}],
                     "thorough": [{"els": ["AL", "CR", "FE", "NI"], "ref": r, "dof": 5, "ncons": 2} for r in ("AL", "CR", "FE", "NI")]}),
+    Harness("C10.solve_fallback", solve_fallback, functions=[FEH.partialddx, FEH.totalddx], opts={"inv_hook": _solve_hook},
+            assumptions=["exact arithmetic: np.linalg.inv raises LinAlgError exactly for singular matrices; conditioning / rcond effects of "
+                         "floating-point solves are NOT covered",
+                         "Hessian families: arbitrary non-singular 2 x 2 / lower-triangular 3 x 3 (no internal degrees of freedom), and diagonal 6 x 6 with one structural zero, or all zero"],
+            stubs=["FreeEnergyHessian.hessian: symbolic matrix", "np.linalg.inv: exact inverse (cofactors / diagonal), LinAlgError iff singular",
+                   "np.linalg.pinv (not used by the unmodified code): exact Moore-Penrose inverse for the same families",
+                   "composition set: phase_record with nonvacant_elements, phase_dof, num_internal_cons"],
+            bounds={"components": "1-2", "matrix size": "2-3 (non-singular), 6 (diagonal)"},
+            params={"quick": [{"fn": "partial", "kind": "general"}, {"fn": "total", "kind": "general", "ref": "AL"},
+                              {"fn": "partial", "kind": "diag", "zero_at": 0}, {"fn": "partial", "kind": "diag", "zero_at": 3},
+                              {"fn": "partial", "kind": "diag", "zero_at": 5}, {"fn": "total", "kind": "diag", "zero_at": 1},
+                              {"fn": "partial", "kind": "zero"}],
+                    "thorough": [{"fn": f, "kind": "general", "ref": r} for f in ("partial", "total") for r in ("AL", "NI")] +
+                                [{"fn": f, "kind": "diag", "zero_at": z, "ref": "NI"} for f in ("partial", "total") for z in range(6)] +
+                                [{"fn": f, "kind": "zero"} for f in ("partial", "total")]}),
 ]
